@@ -144,7 +144,8 @@ func (w *walker) genBytes(max int, small bool) []byte {
 		if max >= 0 {
 			n = max
 		} else {
-			n = 1 + r.Intn(300)
+			// no declared bound: lengths around the bounds other types have and far beyond
+			n = []int{1 + r.Intn(300), 255, 256, 1024, 1025, 4096, 4097, 8193, 70000}[r.Intn(9)]
 		}
 	case 2:
 		n = 1 + r.Intn(5)
@@ -153,6 +154,9 @@ func (w *walker) genBytes(max int, small bool) []byte {
 	}
 	if max >= 0 && n > max {
 		n = max
+	}
+	if max >= 0 && r.Chance(1, 16) {
+		n = max + 1 // one beyond the declared bound: both sides must refuse to encode it
 	}
 	b := make([]byte, n)
 	for i := range b {
